@@ -18,7 +18,7 @@ from .core import (Conc, Z, TupV, ExcV, ObjV, BoundM, FuncV, OPAQUE_STR, OpaqueS
                    Untranslatable, PathEnd, fresh, _Break, _Continue)
 from .objtheory import sval, S, I, B, strlen, strcat, lit, casefold
 from .objtheory import prefixof, suffixof
-from .lextheory import LexTheory, set_has, sub_in, tid, optstr, pairs_has
+from .lextheory import LexTheory, set_has, sub_in, tid, optstr, pairs_has, allowed
 
 R = z3.RealSort()
 anychar_in = z3.Function("any_char_of_text_in_table", I, S, B)      # any(c in TABLE for c in s)
@@ -37,6 +37,11 @@ char_of = z3.Function("is_a_character_of", S, S, B)                  # (characte
 all_chars_ident = z3.Function("all_characters_are_identifier_characters", S, B)
 bad_char = z3.Function("non_identifier_character_witness", S, S)
 ascii_ok = z3.Function("encodes_as_ascii", S, B)
+all_chars_allowed = z3.Function("all_characters_allowed_by_the_grammar", S, B)
+bad_allowed = z3.Function("disallowed_character_witness", S, S)
+first_of = z3.Function("first_item_of_table", I, S)
+fmt_fn = z3.Function("encoder_format", S, I, S)                      # self.format(text, level)
+module_text = z3.Function("encode_module_text", I, I, S)             # self.encode_module(value, level)
 assign_ok = z3.Function("is_assignment_statement", S, B)
 tail1 = z3.Function("text_without_first_character", S, S)
 cf_wit = z3.Function("casefold_witness", I, S, S)
@@ -83,7 +88,10 @@ class EncTheory(LexTheory):
         x, y, w = z3.Consts("ex ey ew", S)
         k = z3.Const("ek", I)
         v = z3.Const("ev", I)
+        empty = lit("")
         return super().axioms() + [
+            z3.ForAll([x], strcat(empty, x) == x, patterns=[strcat(empty, x)]),
+            z3.ForAll([x], strcat(x, empty) == x, patterns=[strcat(x, empty)]),
             # definitions of the three table-search predicates (used for the forall-closure obligations)
             z3.ForAll([k, x, y], z3.Implies(z3.And(set_has(k, x), casefold(x) == y), cf_in(k, y)),
                       patterns=[z3.MultiPattern(set_has(k, x), cf_in(k, y))]),
@@ -108,6 +116,10 @@ class EncTheory(LexTheory):
                       patterns=[z3.MultiPattern(all_chars_ident(y), char_of(x, y))]),
             z3.ForAll([y], z3.Implies(z3.Not(all_chars_ident(y)), z3.And(char_of(bad_char(y), y), z3.Not(_identchar(bad_char(y))))),
                       patterns=[all_chars_ident(y)]),
+            z3.ForAll([x, y], z3.Implies(z3.And(all_chars_allowed(y), char_of(x, y)), allowed(x)),
+                      patterns=[z3.MultiPattern(all_chars_allowed(y), char_of(x, y))]),
+            z3.ForAll([y], z3.Implies(z3.Not(all_chars_allowed(y)), z3.And(char_of(bad_allowed(y), y), z3.Not(allowed(bad_allowed(y))))),
+                      patterns=[all_chars_allowed(y)]),
             z3.ForAll([v], z3.Implies(type_is(v, type_id("bool")), type_is(v, type_id("self.numeric_types"))),
                       patterns=[type_is(v, type_id("bool"))]),
         ]
@@ -150,14 +162,18 @@ class EncTheory(LexTheory):
                 return ObjV("decoder", info={"owner": "self"})
             if attr == "width":
                 return Z("int", z3.Const("self_width", I))
-            if attr in ("symbol_single_quote", "end_delimiter"):
+            if attr in ("grpcls", "objcls"):
+                return FuncV("self." + attr)
+            if attr in ("symbol_single_quote", "end_delimiter", "aggregation_end"):
                 return Z("bool", z3.Const("self_" + attr, B))
             if attr == "numeric_types":
                 return FuncV("self.numeric_types")
+            if attr == "newline":
+                return Z("str", z3.Const("self_newline", S))
         return None
 
     def global_name(self, ex, name):
-        if name in ("set", "frozenset", "list", "bool", "str", "datetime", "any", "Token", "isinstance", "len", "super"):
+        if name in ("set", "frozenset", "list", "bool", "str", "datetime", "any", "Token", "isinstance", "len", "super", "enumerate", "max", "abc"):
             return FuncV(name)
         return super().global_name(ex, name)
 
@@ -177,16 +193,18 @@ class EncTheory(LexTheory):
                 return Z("str", gconst(attr))
             if attr == "quotes":
                 return TupV([Z("str", gconst("quote1")), Z("str", gconst("quote2"))])
+            if attr in ("group_pref_keywords", "object_pref_keywords"):
+                return TupV([Z("str", gconst(attr + "_begin")), Z("str", gconst(attr + "_end"))])
             if attr in ("reserved_keywords", "format_effectors", "whitespace", "reserved_characters", "end_statements", "delimiters"):
                 return ObjV("strset", info={"id": tid("g." + attr), "name": attr})
             if attr == "comments":
                 return ObjV("pairs", info={"id": tid("g.comments")})
             if attr == "aggregation_keywords":
                 return ObjV("kwmap", info={"id": tid("g.aggregation_keywords")})
-        if isinstance(recv, ObjV) and recv.role in ("decoder", "pyval", "kwmap"):
+        if isinstance(recv, ObjV) and recv.role in ("decoder", "pyval", "kwmap", "pylist"):
             return BoundM(recv, attr)
-        if isinstance(recv, FuncV) and recv.name == "datetime":
-            return FuncV("datetime." + attr)
+        if isinstance(recv, FuncV) and recv.name in ("datetime", "abc"):
+            return FuncV(recv.name + "." + attr)
         if isinstance(recv, ObjV) and recv.role == "self" and recv.cls == "Token" and attr in ("grammar", "decoder"):
             return ObjV(attr, info={"owner": "self"})
         if (isinstance(recv, ObjV) and recv.role == "self" and recv.cls == "Token" and hasattr(str, attr)
@@ -236,7 +254,10 @@ class EncTheory(LexTheory):
 
     def getitem(self, ex, recv, idx):
         if isinstance(recv, ObjV) and recv.role == "strset" and isinstance(idx, Conc) and isinstance(idx.v, int):
-            x = fresh("table_item", S)
+            if idx.v == 0:
+                x = first_of(recv.info["id"])
+            else:
+                x = fresh("table_item", S)
             ex.st.assume(set_has(recv.info["id"], x))
             return Z("str", x)
         return super().getitem(ex, recv, idx)
@@ -265,6 +286,17 @@ class EncTheory(LexTheory):
         if t is not None and not isinstance(args[0], Conc):
             return Z("int", strlen(t))
         return super().b_len(ex, args, kwargs)
+
+    def b_list(self, ex, args, kwargs):
+        if args:
+            raise Untranslatable("list(<arg>)")
+        return ObjV("pylist", info={"items": []})       # a local list of texts (mutated in place; never aliased in the verified code)
+
+    def b_enumerate(self, ex, args, kwargs):
+        t = self.sv(args[0])
+        if t is None:
+            raise Untranslatable("enumerate(non-text)")
+        return ObjV("enum-chars", info={"text": t})
 
     def b_any(self, ex, args, kwargs):
         (v,) = args
@@ -307,6 +339,13 @@ class EncTheory(LexTheory):
             return Z("bool", f(ra, rb))
         return super().compare(ex, op, a, b)
 
+    def str_format(self, ex, template, arg_nodes):
+        if template == "{} = {}" and len(arg_nodes) == 2:
+            a, b = [self.sv(ex.expr(x)) for x in arg_nodes]
+            if a is not None and b is not None:
+                return Z("str", strcat(strcat(a, lit(" = ")), b))
+        return None
+
     def tuple_star_tail(self, ex, items, v):
         if isinstance(v, ObjV) and v.role == "strset":
             return ObjV("mixed-iter", info={"items": list(items), "rest": v})
@@ -340,6 +379,19 @@ class EncTheory(LexTheory):
                 if ex.branch(tok_pred(pred_id(name), CONFIGURED, t), name):
                     return ObjV("decoded")
                 raise PyRaise(ExcV("ValueError"))
+        if isinstance(recv, ObjV) and recv.role == "pylist" and name == "append":
+            if self.sv(args[0]) is None:
+                raise Untranslatable("append of a non-text")
+            recv.info["items"].append(self.sv(args[0]))
+            return Conc(None)
+        if self.sv(recv) is not None and name == "join" and isinstance(args[0], ObjV) and args[0].role == "pylist":
+            items = args[0].info["items"]
+            if not items:
+                return Z("str", lit(""))
+            acc = items[0]
+            for it in items[1:]:
+                acc = strcat(strcat(acc, self.sv(recv)), it)
+            return Z("str", acc)
         if isinstance(recv, ObjV) and recv.role == "kwmap" and name in ("keys", "values", "items"):
             return ObjV("strset", info={"id": tid("g.aggregation_keywords." + name), "name": "aggregation_keywords." + name})
         t = self.sv(recv)
@@ -384,6 +436,8 @@ class EncTheory(LexTheory):
             return self.search_loop(ex, node, itv, spec, ordn)
         if self.sv(itv) is not None and getattr(spec, "fall_through", None) is not None:
             return self.search_loop(ex, node, ObjV("chars", info={"text": self.sv(itv)}), spec, ordn)
+        if isinstance(itv, ObjV) and itv.role == "enum-chars" and getattr(spec, "fall_through", None) is not None:
+            return self.search_loop(ex, node, ObjV("chars", info={"text": itv.info["text"], "enum": True}), spec, ordn)
         return super().for_loop(ex, node, itv, spec, ordn)
 
     def search_loop(self, ex, node, table, spec, ordn):
@@ -410,7 +464,10 @@ class EncTheory(LexTheory):
                 ex.st.assume(member(x))
                 if chars:
                     ex.st.assume(strlen(x) == 1)
-                ex.assign(node.target, Z("str", x))
+                if chars and table.info.get("enum"):
+                    ex.assign(node.target, TupV([Z("int", fresh("index", I)), Z("str", x)]))
+                else:
+                    ex.assign(node.target, Z("str", x))
             try:
                 ex.stmts(node.body)
             except _Break:
